@@ -25,11 +25,11 @@ var OCSPBehaviours = []string{
 	// authentic
 	"good", "good-delegate", "good-byname", "good-multi", "good-embed-issuer",
 	"revoked", "revoked-keycompromise", "revoked-hold",
-	"revoked-inv-before", "revoked-inv-equal", "revoked-inv-after", "revoked-inv-malformed",
+	"revoked-inv-before", "revoked-inv-equal", "revoked-inv-after", "revoked-inv-malformed", "revoked-after-st", "revoked-after-st-inv-before",
 	"unknown-status",
 	// forged
 	"forged-unrelated-nocert", "forged-unrelated-selfsigned", "forged-samename-ca", "forged-samename-delegate",
-	"forged-self", "forged-sibling", "forged-delegate-badsig", "forged-delegate-certbroken",
+	"forged-self", "forged-sibling", "forged-sibling-noeku", "forged-sibling-anyeku", "forged-delegate-badsig", "forged-delegate-certbroken",
 	"sig-zero", "sig-trunc", "forged-revoked-inv-after",
 	// misdirected
 	"other-serial",
@@ -103,8 +103,13 @@ func OCSPClass(beh string, withST bool, issuerSelfSigned bool) string {
 			return ClsOK
 		}
 		return ClsEitherOK
-	case "revoked", "revoked-keycompromise", "revoked-hold", "revoked-inv-before", "revoked-inv-equal", "revoked-inv-malformed":
+	case "revoked", "revoked-keycompromise", "revoked-hold", "revoked-inv-before", "revoked-inv-equal", "revoked-inv-malformed", "revoked-after-st", "revoked-after-st-inv-before":
+		// the revocation time itself never excuses: only an invalidity date does
 		return ClsRevoked
+	case "forged-sibling-anyeku":
+		// issued by the issuer with anyExtendedKeyUsage only: whether that
+		// "authorises for OCSP signing" is not settled by the statement
+		return ClsEitherOK
 	case "revoked-inv-after":
 		if withST {
 			return ClsOK
@@ -206,6 +211,27 @@ func (k *Kit) build(beh string) netsim.Reply {
 			r.SignKey = aux.unrelatedKey
 		}
 		r.Singles = []pki.OCSPSingle{s}
+		return body(r)
+	case "revoked-after-st", "revoked-after-st-inv-before":
+		// revoked at an instant AFTER the signing time, without (or with an
+		// earlier) invalidity date
+		r := base()
+		s := k.single(pki.OCSPRevoked)
+		s.Reason = 1
+		s.RevokedAt = after
+		if beh == "revoked-after-st-inv-before" {
+			s.Invalidity = &before
+		}
+		r.Singles = []pki.OCSPSingle{s}
+		return body(r)
+	case "forged-sibling-noeku", "forged-sibling-anyeku":
+		r := base()
+		c := aux.siblingNoEKU
+		if beh == "forged-sibling-anyeku" {
+			c = aux.siblingAnyEKU
+		}
+		r.SignKey, r.Responder, r.Embed = aux.siblingKey, c, []*x509.Certificate{c}
+		r.Singles = []pki.OCSPSingle{k.single(pki.OCSPGood)}
 		return body(r)
 	case "unknown-status":
 		r := base()
